@@ -1,7 +1,7 @@
 (* Entry points of the executable model, by name. One dispatcher so that the OCaml driver and
    the in-Coq case files need no per-function glue. *)
 From Coq Require Import ZArith NArith List String Bool.
-From Sia Require Import Prim.Result Prim.Tok Currency.Model Merkle.Tree Merkle.Update Merkle.UpdateProofs Merkle.Forest Merkle.Acc Merkle.Rhp Policy.Model Pow.Model Codec.Schema Codec.Shape Codec.Irregular Gen.Schemas Codec.Wire Ledger.Types Ledger.Mid Ledger.Validate Ledger.Apply Merkle.StorageProof Hash.Ids Merkle.Multi Gateway.Outline Rhp4.Model Codec.Size Gen.Limits Codec.Framing Text.Hex Text.Currency Text.PolicyText.
+From Sia Require Import Prim.Result Prim.Tok Currency.Model Merkle.Tree Merkle.Update Merkle.UpdateProofs Merkle.Forest Merkle.Acc Merkle.Rhp Policy.Model Pow.Model Codec.Schema Codec.Shape Codec.Irregular Gen.Schemas Codec.Wire Ledger.Types Ledger.Mid Ledger.Validate Ledger.Apply Merkle.StorageProof Hash.Ids Merkle.Multi Gateway.Outline Rhp4.Model Codec.Size Gen.Limits Codec.Framing Text.Hex Text.Currency Text.PolicyText Text.Forms.
 Import ListNotations.
 Open Scope string_scope.
 Open Scope list_scope.
@@ -308,6 +308,10 @@ Section Dispatch.
   Definition api_c20 (name : string) (args : list tok) : option (list tok) :=
     match name, args with
     | "c20.hex", [TZ k; TB s] => Some (match unmarshal_hex (Z.to_nat k) s with Some b => [TZ 0; TB b] | None => [TZ 1] end)
+    | "c20.pk_render", [TB b] => Some [TB (pk_render b)]
+    | "c20.pk_parse", [TB s] => Some (match pk_parse s with Some a => [TZ 0; TB a] | None => [TZ 1] end)
+    | "c20.ci_render", [TZ h; TB b] => Some [TB (ci_render (Z.to_N h) b)]
+    | "c20.ci_parse", [TB s] => Some (match ci_parse s with Some (h, a) => [TZ 0; tN h; TB a] | None => [TZ 1] end)
     | "c20.hexenc", [TB b] => Some [TB (hex_encode b)]
     | "c20.addr_parse", [TB s] => Some (match addr_parse H s with Some a => [TZ 0; TB a] | None => [TZ 1] end)
     | "c20.addr_render", [TB a] => Some [TB (addr_render H a)]
